@@ -1,0 +1,101 @@
+//go:build verif
+
+// Verification contracts for cmd/broker (comment-only; read by /verif/govc).
+// This file contains no executable code.
+
+package main
+
+// ---- dualS3Client (C44): writes, deletes, listings and bucket checks go to the primary only, exactly once, with the
+// caller's arguments, and their result is returned unchanged; reads try the replica once and, on any replica
+// error, return exactly what the primary returns for the same key and range.
+
+//@ func (d *dualS3Client) UploadSegment
+//@   requires d.write != nil && d.read != nil
+//@   ghost n int = 0
+//@   ghost gerr error = nil
+//@   at UploadSegment#* before assert [C44.UploadSegment.primary_only] recv == old(d.write) && arg1 == key && arg2 == body
+//@   at UploadSegment#* after set n = n + 1
+//@   at UploadSegment#* after set gerr = ret0
+//@   ensures [C44.UploadSegment.once_and_returned] n == 1 && result == gerr
+//@
+//@ func (d *dualS3Client) UploadIndex
+//@   requires d.write != nil && d.read != nil
+//@   ghost n int = 0
+//@   ghost gerr error = nil
+//@   at UploadIndex#* before assert [C44.UploadIndex.primary_only] recv == old(d.write) && arg1 == key && arg2 == body
+//@   at UploadIndex#* after set n = n + 1
+//@   at UploadIndex#* after set gerr = ret0
+//@   ensures [C44.UploadIndex.once_and_returned] n == 1 && result == gerr
+//@
+//@ func (d *dualS3Client) DeleteSegment
+//@   requires d.write != nil && d.read != nil
+//@   ghost n int = 0
+//@   ghost gerr error = nil
+//@   at DeleteSegment#* before assert [C44.DeleteSegment.primary_only] recv == old(d.write) && arg1 == key
+//@   at DeleteSegment#* after set n = n + 1
+//@   at DeleteSegment#* after set gerr = ret0
+//@   ensures [C44.DeleteSegment.once_and_returned] n == 1 && result == gerr
+//@
+//@ func (d *dualS3Client) DeleteIndex
+//@   requires d.write != nil && d.read != nil
+//@   ghost n int = 0
+//@   ghost gerr error = nil
+//@   at DeleteIndex#* before assert [C44.DeleteIndex.primary_only] recv == old(d.write) && arg1 == key
+//@   at DeleteIndex#* after set n = n + 1
+//@   at DeleteIndex#* after set gerr = ret0
+//@   ensures [C44.DeleteIndex.once_and_returned] n == 1 && result == gerr
+//@
+//@ func (d *dualS3Client) EnsureBucket
+//@   requires d.write != nil && d.read != nil
+//@   ghost n int = 0
+//@   ghost gerr error = nil
+//@   at EnsureBucket#* before assert [C44.EnsureBucket.primary_only] recv == old(d.write)
+//@   at EnsureBucket#* after set n = n + 1
+//@   at EnsureBucket#* after set gerr = ret0
+//@   ensures [C44.EnsureBucket.once_and_returned] n == 1 && result == gerr
+//@
+//@ func (d *dualS3Client) ListSegments
+//@   requires d.write != nil && d.read != nil
+//@   ghost n int = 0
+//@   ghost gerr error = nil
+//@   ghost gobjs []storage.S3Object = nil
+//@   at ListSegments#* before assert [C44.ListSegments.primary_only] recv == old(d.write) && arg1 == prefix
+//@   at ListSegments#* after set n = n + 1
+//@   at ListSegments#* after set gobjs = ret0
+//@   at ListSegments#* after set gerr = ret1
+//@   ensures [C44.ListSegments.once_and_returned] n == 1 && sameSlice(result0, gobjs) && result1 == gerr
+//@
+//@ func (d *dualS3Client) DownloadSegment
+//@   requires d.write != nil && d.read != nil
+//@   ghost n int = 0
+//@   ghost rdata []byte = nil
+//@   ghost rerr error = nil
+//@   ghost pdata []byte = nil
+//@   ghost perr error = nil
+//@   at DownloadSegment#1 before assert [C44.DownloadSegment.replica_first] recv == old(d.read) && arg1 == key && arg2 == rng
+//@   at DownloadSegment#1 after set rdata = ret0
+//@   at DownloadSegment#1 after set rerr = ret1
+//@   at DownloadSegment#2 before assert [C44.DownloadSegment.fallback_is_primary] recv == old(d.write) && arg1 == key && arg2 == rng && rerr != nil
+//@   at DownloadSegment#2 after set pdata = ret0
+//@   at DownloadSegment#2 after set perr = ret1
+//@   at DownloadSegment#* after set n = n + 1
+//@   ensures [C44.DownloadSegment.replica_hit] rerr == nil ==> n == 1 && sameSlice(result0, rdata) && result1 == nil
+//@   ensures [C44.DownloadSegment.fallback_primary] rerr != nil ==> n == 2 && sameSlice(result0, pdata) && result1 == perr
+//@
+//@ func (d *dualS3Client) DownloadIndex
+//@   requires d.write != nil && d.read != nil
+//@   ghost n int = 0
+//@   ghost rdata []byte = nil
+//@   ghost rerr error = nil
+//@   ghost pdata []byte = nil
+//@   ghost perr error = nil
+//@   at DownloadIndex#1 before assert [C44.DownloadIndex.replica_first] recv == old(d.read) && arg1 == key
+//@   at DownloadIndex#1 after set rdata = ret0
+//@   at DownloadIndex#1 after set rerr = ret1
+//@   at DownloadIndex#2 before assert [C44.DownloadIndex.fallback_is_primary] recv == old(d.write) && arg1 == key && rerr != nil
+//@   at DownloadIndex#2 after set pdata = ret0
+//@   at DownloadIndex#2 after set perr = ret1
+//@   at DownloadIndex#* after set n = n + 1
+//@   ensures [C44.DownloadIndex.replica_hit] rerr == nil ==> n == 1 && sameSlice(result0, rdata) && result1 == nil
+//@   ensures [C44.DownloadIndex.fallback_primary] rerr != nil ==> n == 2 && sameSlice(result0, pdata) && result1 == perr
+//@
